@@ -52,6 +52,8 @@ struct StaticHeapMaps {
 }
 
 static STATIC_HEAP_MAPS: LazyLock<StaticHeapMaps> = LazyLock::new(|| {
+    #[cfg(feature = "verif_hooks")]
+    let _no_preempt = crate::verif_hooks::NoPreempt::enter();
     let mut ptr_to_id = HashMap::new();
     let mut id_to_heap: Vec<&'static FrozenHeapRef> = Vec::new();
     for entry in StaticHeapEntry::iter_sorted() {
